@@ -107,12 +107,22 @@ def nearest_double(q):
 
 
 def mantissa_patterns(mbits, k):
-    """All mbits-bit values whose set bits lie in the top k or the bottom k positions (4^k patterns)."""
+    """All mbits-bit values whose set bits lie in the top k or the bottom k positions (4^k patterns), plus the
+    2^k values just below 2^mbits, two runs of ones with a hole and the alternating patterns."""
     out = set()
     for hi in range(1 << k):
         for lo in range(1 << k):
             out.add((hi << (mbits - k)) | lo)
-    return sorted(out)
+    # values just below the next power of two (all ones and the 2^k - 1 patterns below it), a long run of ones with a
+    # low / high hole, and the two alternating patterns
+    M = 1 << mbits
+    for d in range(1, (1 << k) + 1):
+        out.add(M - d)
+    out.add(M - 1 - (1 << (mbits // 2)))
+    out.add((M - 1) >> 1)
+    out.add(M // 3)
+    out.add(2 * (M // 3))
+    return sorted(v for v in out if 0 <= v < M)
 
 
 def c2_encode(v, w):
